@@ -263,6 +263,11 @@ func negotiateExtensions(
 	if !ok {
 		return nil, ErrMalformedRequest
 	}
+	if err != nil {
+		// The scan was stopped by an error from f; do not ask f about the same
+		// option for the second time.
+		return nil, err
+	}
 	return negotiateMaybe(current, dest, f)
 }
 
